@@ -25,11 +25,8 @@ Definition chk_gather (c : Z * Z * Z * list Z * list Z * list bool * list Z * Z 
   let '(L, Sn, T, rows, cols, vii, ia, fill, data, exp, _) := c in
   let H := sumZ rows in
   let W := sumZ cols in
-  let cells := unravel (Z.to_nat (L * Sn)) (Z.to_nat T) data in            (* data.reshape(flat_src_shape): trailing vectors *)
-  let planes := unravel (Z.to_nat L) (Z.to_nat Sn) cells in
   let ia2 := unravel (Z.to_nat H) (Z.to_nat W) ia in
-  let fillv := repeat fill (Z.to_nat T) in
-  let out := map (fun plane => gather_chunked fillv rows cols (sub2 ia2) vii plane) planes in
+  let out := resample_nested (Z.to_nat L) (Z.to_nat Sn) (Z.to_nat T) fill rows cols (sub2 ia2) vii data in
   zl_eqb (concat (concat (concat out))) exp.
 
 (* numpy pipeline: (targets, K, vii, voi, index_array (compacted over valid targets), fill, data rows (S x K), observed flat) *)
